@@ -13,6 +13,8 @@ package checks
 
 import (
 	"bytes"
+	"encoding/json"
+	"errors"
 	"fmt"
 	"net"
 	"net/http"
@@ -28,6 +30,8 @@ import (
 	"github.com/superfly/litefs"
 	"verif/core"
 	"verif/drv"
+	"verif/fakeconsul"
+	"verif/lease"
 	"verif/mon"
 )
 
@@ -38,6 +42,209 @@ func init() {
 		}
 		return 6
 	}, runDrvC05)
+	addKMount("C08", func(tier string) int {
+		if tier == "thorough" {
+			return 48
+		}
+		return 6
+	}, runDrvC08)
+}
+
+type infoJSON struct {
+	ClusterID string `json:"clusterID"`
+	IsPrimary bool   `json:"isPrimary"`
+	Candidate bool   `json:"candidate"`
+	Primary   struct {
+		Hostname string `json:"hostname"`
+	} `json:"primary"`
+}
+
+func (p *litefsProc) info() (infoJSON, error) {
+	var out infoJSON
+	resp, err := http.Get("http://" + p.addr + "/info")
+	if err != nil {
+		return out, err
+	}
+	defer resp.Body.Close()
+	err = json.NewDecoder(resp.Body).Decode(&out)
+	return out, err
+}
+
+// runDrvC08: the configuration wiring of the real binary (cmd/litefs
+// mount_linux.go): lease.type consul against the fake Consul, lease.candidate,
+// lease.hostname, lease.advertise-url and lease.promote must reach the store
+// as configured. The lease service behind the fake Consul is the ground truth.
+func runDrvC08(c *core.Case, k int) {
+	if ok, why := kmountAvailable(); !ok || os.Getenv("VERIF_LITEFS_BIN") == "" {
+		c.Count("drvc_unavailable", 1)
+		if k == 0 {
+			c.Sample(map[string]any{"drvc": "unavailable", "why": why})
+		}
+		return
+	}
+	scenario := []string{"candidate-and-non-candidate", "promote", "expire"}[k%3]
+	svc := lease.NewService(2 * time.Second)
+	fc := fakeconsul.New(svc)
+	defer fc.Close()
+	var hist []string
+	detail := func() map[string]any {
+		calls := svc.Calls()
+		if len(calls) > 40 {
+			calls = calls[len(calls)-40:]
+		}
+		return map[string]any{"driver": "C (litefs binary + fake Consul)", "scenario": scenario, "events": hist, "lease_calls_tail": calls}
+	}
+	leaseBlock := func(node string, candidate, promote bool) (string, error) {
+		u, err := fc.URLFor(node, node, "http://PLACEHOLDER")
+		if err != nil {
+			return "", err
+		}
+		return fmt.Sprintf("  type: \"consul\"\n  candidate: %v\n  promote: %v\n  hostname: %q\n  advertise-url: \"http://%%ADDR%%\"\n  reconnect-delay: \"50ms\"\n  demote-delay: \"50ms\"\n  consul:\n    url: %q\n    key: \"primary\"\n    ttl: \"2s\"\n    lock-delay: \"1ms\"\n", candidate, promote, node, u), nil
+	}
+	start := func(node string, candidate, promote bool) *litefsProc {
+		lb, err := leaseBlock(node, candidate, promote)
+		if err != nil {
+			c.Inconclusive(err.Error())
+			return nil
+		}
+		d := filepath.Join(c.Dir, node)
+		_ = os.MkdirAll(d, 0o755)
+		p, err := startLitefsLease(d, lb, "")
+		if err != nil {
+			c.Count("drvc_unavailable", 1)
+			c.Sample(map[string]any{"drvc": "start failed", "why": err.Error()})
+			return nil
+		}
+		return p
+	}
+	waitFor := func(d time.Duration, f func() bool) bool {
+		for dl := time.Now().Add(d); time.Now().Before(dl); {
+			if f() {
+				return true
+			}
+			time.Sleep(10 * time.Millisecond)
+		}
+		return f()
+	}
+	acquiresBy := func(node string) int {
+		n := 0
+		for _, call := range svc.Calls() {
+			if call.Node == node && (call.Op == "acquire" || call.Op == "acquire-existing") {
+				n++
+			}
+		}
+		return n
+	}
+	n0 := start("n0", true, false)
+	if n0 == nil {
+		return
+	}
+	defer n0.stop()
+	c.Count("drvc_cases", 1)
+	if !waitFor(10*time.Second, func() bool { i, err := n0.info(); return err == nil && i.IsPrimary }) {
+		c.Violate("C08/drvc/candidate-never-primary", "a node configured lease.candidate=true on a free Consul lease did not become primary: "+n0.logTail(), detail())
+		return
+	}
+	if h, _ := svc.Holder(); h != "n0" {
+		c.Violate("C08/drvc/primary-without-lease", fmt.Sprintf("the process reports primary but the lease service records holder %q", h), detail())
+		return
+	}
+	// what the lease advertises must be what was configured
+	var pi litefs.PrimaryInfo
+	err := json.Unmarshal(fc.PrimaryValue(), &pi)
+	if err != nil || pi.Hostname != "n0" || pi.AdvertiseURL != "http://"+n0.addr {
+		c.Violate("C08/drvc/advertised-info-differs", fmt.Sprintf("configured hostname n0 / advertise-url http://%s, the lease carries %+v (%v)", n0.addr, pi, err), detail())
+		return
+	}
+	hist = append(hist, "n0 (candidate) is primary with the configured hostname and advertise-url")
+	switch scenario {
+	case "candidate-and-non-candidate":
+		n1 := start("n1", false, false)
+		if n1 == nil {
+			return
+		}
+		defer n1.stop()
+		if !waitFor(10*time.Second, func() bool { i, err := n1.info(); return err == nil && !i.IsPrimary && i.Primary.Hostname == "n0" }) {
+			i, _ := n1.info()
+			c.Violate("C08/drvc/replica-does-not-see-primary", fmt.Sprintf("the second node reports %+v", i), detail())
+			return
+		}
+		if i, _ := n1.info(); i.Candidate {
+			c.Violate("C08/drvc/candidate-flag-not-wired", "lease.candidate=false in the configuration, the store reports candidate=true", detail())
+			return
+		}
+		// the primary goes away: the non-candidate must never try to take the lease
+		n0.stop()
+		svc.Expire()
+		time.Sleep(1500 * time.Millisecond)
+		if n := acquiresBy("n1"); n > 0 {
+			c.Violate("C08/non-candidate-acquire", fmt.Sprintf("the node configured lease.candidate=false called acquire %d times after the primary went away", n), detail())
+			return
+		}
+		if i, err := n1.info(); err == nil && i.IsPrimary {
+			c.Violate("C08/drvc/non-candidate-primary", "the node configured lease.candidate=false reports primary", detail())
+			return
+		}
+		c.Count("noncandidate_never_acquired", 1)
+	case "promote":
+		n1 := start("n1", true, true)
+		if n1 == nil {
+			return
+		}
+		defer n1.stop()
+		// lease.promote: the new node asks the current primary to hand the lease over
+		if !waitFor(15*time.Second, func() bool { i, err := n1.info(); return err == nil && i.IsPrimary }) {
+			c.Violate("C08/drvc/promote-not-wired", "lease.promote=true on a candidate that joined a running primary: it never became primary: "+n1.logTail(), detail())
+			return
+		}
+		if h, _ := svc.Holder(); h != "n1" {
+			c.Violate("C08/drvc/primary-without-lease", fmt.Sprintf("n1 reports primary after promotion but the lease service records holder %q", h), detail())
+			return
+		}
+		if !waitFor(5*time.Second, func() bool { i, err := n0.info(); return err == nil && !i.IsPrimary }) {
+			c.Violate("C08/still-primary-after-loss", "n0 still reports primary after handing its lease to the promoted node", detail())
+			return
+		}
+		sawExisting := false
+		for _, call := range svc.Calls() {
+			if call.Op == "acquire-existing" && call.Node == "n1" {
+				sawExisting = true
+			}
+			if call.Op == "acquire-existing" && call.Node != "n1" {
+				c.Violate("C08/handoff-to-wrong-node", call.Node+" used the handed-off lease", detail())
+				return
+			}
+		}
+		if !sawExisting {
+			c.Violate("C08/drvc/promote-without-handoff", "n1 became primary without taking over the existing lease (two leases?)", detail())
+			return
+		}
+		c.Count("loss_by_handoff", 1)
+	case "expire":
+		blocked := atomic.Bool{}
+		blocked.Store(true)
+		svc.SetInject(func(node, op string) error {
+			if blocked.Load() && op == "acquire" {
+				return errors.New("scripted: acquire unavailable")
+			}
+			return nil
+		})
+		svc.Expire()
+		if !waitFor(10*time.Second, func() bool { i, err := n0.info(); return err == nil && !i.IsPrimary }) {
+			c.Violate("C08/still-primary-after-loss", "the lease expired (session gone) but the process still reports primary", detail())
+			return
+		}
+		c.Count("loss_by_expiry", 1)
+		blocked.Store(false)
+		if !waitFor(10*time.Second, func() bool { i, err := n0.info(); return err == nil && i.IsPrimary }) {
+			c.Violate("C08/drvc/never-primary-again", "after the lease became free again the candidate did not re-acquire it", detail())
+			return
+		}
+	}
+	c.Distinct("drvc/c08/" + scenario)
+	if k < 3 {
+		c.Sample(detail())
+	}
 }
 
 type litefsProc struct {
@@ -60,6 +267,12 @@ func freePort() (int, error) {
 
 // startLitefs writes a configuration and starts `litefs mount` on dir.
 func startLitefs(dir string, extraYAML string) (*litefsProc, error) {
+	return startLitefsLease(dir, "", extraYAML)
+}
+
+// startLitefsLease starts the binary with a caller-supplied lease block (YAML,
+// indented by two spaces, "%ADDR%" = this node's API address); "" = static primary.
+func startLitefsLease(dir, leaseYAML, extraYAML string) (*litefsProc, error) {
 	bin := os.Getenv("VERIF_LITEFS_BIN")
 	if bin == "" {
 		return nil, fmt.Errorf("VERIF_LITEFS_BIN not set")
@@ -74,6 +287,10 @@ func startLitefs(dir string, extraYAML string) (*litefsProc, error) {
 	p := &litefsProc{dir: dir, mnt: filepath.Join(dir, "mnt"), data: filepath.Join(dir, "data"), addr: fmt.Sprintf("127.0.0.1:%d", port), done: make(chan struct{})}
 	_ = os.MkdirAll(p.mnt, 0o755)
 	_ = os.MkdirAll(p.data, 0o755)
+	if leaseYAML == "" {
+		leaseYAML = "  type: \"static\"\n  candidate: true\n  hostname: \"n0\"\n  advertise-url: \"http://%ADDR%\"\n"
+	}
+	leaseYAML = strings.ReplaceAll(leaseYAML, "%ADDR%", p.addr)
 	yml := fmt.Sprintf(`fuse:
   dir: %q
 data:
@@ -82,11 +299,7 @@ exit-on-error: true
 http:
   addr: %q
 lease:
-  type: "static"
-  candidate: true
-  hostname: "n0"
-  advertise-url: "http://%s"
-%s`, p.mnt, p.data, p.addr, p.addr, extraYAML)
+%s%s`, p.mnt, p.data, p.addr, leaseYAML, extraYAML)
 	cfg := filepath.Join(dir, "litefs.yml")
 	if err := os.WriteFile(cfg, []byte(yml), 0o644); err != nil {
 		return nil, err
